@@ -9,15 +9,29 @@ From Bifrost Require Import Lib.Base gen.Sigclient.
 (* Symbolic signed messages (Dolev-Yao): a signature is a free term.   *)
 
 Inductive sgn :=
-| SigOf (key : nat) (ctx body : bytes)   (* Ed25519 signature by [key] over (ctx, hash body) *)
+| SigOf (key : nat) (ctx : bytes) (ht : Z) (body : bytes)
+                                         (* Ed25519 signature by [key] over (ctx, hash type, hash body) *)
 | SigJunk.                               (* any byte string that is not a signature made by a key *)
+
+(* Signature.pub_key: the optional public key attached to the signature object.
+   Honest senders leave it empty; verification must not depend on it. *)
+Inductive att_key :=
+| AttNone                                (* field empty *)
+| AttKey (k : nat)                       (* a well-formed public key *)
+| AttBad.                                (* bytes that do not parse as a public key *)
 
 Inductive from_id :=
 | FromKey (k : nat)                      (* well-formed peer id of public key k *)
 | FromBad.                               (* empty or unparsable peer id *)
 
-(* SessionMsg { SignedMsg { from_peer_id, signature, data }, seqno } *)
-Record smsg := mkMsg { m_from : from_id; m_data : bytes; m_sig : sgn; m_seq : Z }.
+(* SessionMsg { SignedMsg { from_peer_id, signature { pub_key, hash_type, sig_data }, data }, seqno } *)
+Record smsg := mkMsg { m_from : from_id; m_data : bytes; m_sig : sgn; m_seq : Z;
+                       m_ht : Z; m_att : att_key }.
+
+(* hash types accepted by HashType.Validate and usable by VerifyWithPublic
+   (UNKNOWN = 0 passes Validate but not VerifyWithPublic); regenerated *)
+Definition ht_ok (h : Z) : bool :=
+  Z.eqb h hash_type_sha256 || Z.eqb h hash_type_sha1 || Z.eqb h hash_type_blake3.
 
 (* encContext, regenerated from signaling/rpc/signaling.go *)
 Definition sig_ctx : bytes := signaling_enc_context.
@@ -30,7 +44,9 @@ Definition EUnrecognized : nat := 4%nat.  (* response without a known body *)
 Definition ECtx : nat := 5%nat.           (* context cancelled / stream send failed *)
 
 (* peer.SignedMsg.ExtractAndVerify(encContext): empty body, empty / unparsable
-   peer id, signature check against the key named by from_peer_id. *)
+   peer id, Signature.Validate (hash type, attached key must parse if present),
+   signature check against the key NAMED BY from_peer_id; a well-formed
+   attached key is ignored. *)
 Definition verify_msg (m : smsg) : outcome nat :=
   match m_data m with
   | [] => Err EVerify
@@ -38,12 +54,17 @@ Definition verify_msg (m : smsg) : outcome nat :=
       match m_from m with
       | FromBad => Err EVerify
       | FromKey k =>
-          match m_sig m with
-          | SigJunk => Err EVerify
-          | SigOf k' c b =>
-              if Nat.eqb k' k && bytes_eqb c sig_ctx && bytes_eqb b (m_data m)
-              then Ok k else Err EVerify
-          end
+          if negb (ht_ok (m_ht m)) then Err EVerify
+          else match m_att m with
+               | AttBad => Err EVerify
+               | _ =>
+                   match m_sig m with
+                   | SigJunk => Err EVerify
+                   | SigOf k' c h b =>
+                       if Nat.eqb k' k && bytes_eqb c sig_ctx && Z.eqb h (m_ht m) && bytes_eqb b (m_data m)
+                       then Ok k else Err EVerify
+                   end
+               end
       end
   end.
 
@@ -52,9 +73,16 @@ Definition check_recv (peer : nat) (m : smsg) : outcome unit :=
   k <- verify_msg m ;;
   if Nat.eqb k peer then Ok tt else Err EPeer.
 
+(* the hash type Send signs with (HashType_BLAKE3), regenerated *)
+Definition ht_blake3 : Z := hash_type_blake3.
+Definition ht_sha256 : Z := hash_type_sha256.
+
 (* NewSessionMsg(privKey, BLAKE3, body, seqno) *)
 Definition sign_msg (self : nat) (body : bytes) (seq : Z) : smsg :=
-  mkMsg (FromKey self) body (SigOf self sig_ctx body) seq.
+  mkMsg (FromKey self) body (SigOf self sig_ctx ht_blake3 body) seq ht_blake3 AttNone.
+
+Definition with_att (a : att_key) (m : smsg) : smsg :=
+  mkMsg (m_from m) (m_data m) (m_sig m) (m_seq m) (m_ht m) a.
 
 (* ------------------------------------------------------------------ *)
 (* Wire messages                                                      *)
